@@ -194,6 +194,16 @@ pub fn judge(c: &Case, rec: &mut Rec) -> Verdict {
     }
     if !out.ok() {
         rec.count("exit_nonzero", 1);
+        // "replacing an existing entry unless no-clobber is set": without -n, an existing regular file,
+        // fifo or valid symlink at the destination path must be replaced, not make the copy fail
+        let replaceable = c.nodes.iter().take(n).all(|x| matches!(x.dest % 5, 0 | 1 | 2 | 3));
+        if !c.no_clobber && collision && replaceable && out.signal.is_none() {
+            return Verdict::faild(
+                format!("C14|{}|existing-entry-not-replaced", driver),
+                format!("no -n, destination holds a replaceable entry, but xcp exits {:?}: {}", out.code, out.stderr_s().lines().last().unwrap_or("")),
+                json!({"argv": argv_s, "nodes": c.nodes.iter().take(n).map(|x| format!("{} dest-state {}", kn(x.kind), x.dest % 5)).collect::<Vec<_>>()}),
+            );
+        }
         return Verdict::Pass;
     }
     let mut nontrivial = false;
